@@ -704,6 +704,38 @@ pub fn relabel_pattern(quads: &[Q], pattern: usize, rng: &mut Rng) -> Vec<Q> {
     quads.iter().map(|q| map_quad(q, &f)).collect()
 }
 
+/// `k` blank nodes a_i with the SAME first-degree hash, each related to a blank node used as GRAPH NAME (position g
+/// of Hash Related Blank Node); the graph-name nodes are what tells the a_i apart.
+///   0: a_i p <o> g_i . g_i q <x_i>            1: g_i told apart two steps away (g_i q t_i . t_i q "i")
+///   2: graph names shared by some of the tied nodes (a_0, a_1 in g_0, the rest in g_1)
+///   3: several quads per blank graph, the graph node also object of a quad      4: a_i p g_i g_i (node twice in a quad)
+pub fn blank_graph_ties(k: usize, variant: usize) -> Vec<Q> {
+    let xs = "http://www.w3.org/2001/XMLSchema#string";
+    let a = |i: usize| T::Bnode(format!("ta{}", i));
+    let g = |i: usize| T::Bnode(format!("tg{}", i));
+    let mut v = vec![];
+    for i in 0..k {
+        let gi = if variant == 2 { g(if i < 2 { 0 } else { 1 }) } else { g(i) };
+        match variant {
+            4 => v.push(quad(a(i), iri(P0), gi.clone(), Some(gi.clone()))),
+            _ => v.push(quad(a(i), iri(P0), iri("x:o"), Some(gi.clone()))),
+        }
+        if variant == 3 {
+            v.push(quad(a(i), iri(P1), iri("x:o2"), Some(gi.clone())));
+            v.push(quad(iri("x:s"), iri("x:r0"), gi.clone(), None));
+        }
+        match variant {
+            1 => {
+                let t = T::Bnode(format!("tt{}", i));
+                v.push(quad(gi.clone(), iri(P1), t.clone(), None));
+                v.push(quad(t, iri(P1), T::Lit(format!("{}", i), xs.into()), None));
+            }
+            _ => v.push(quad(gi.clone(), iri(P1), iri(&format!("x:x{}", if variant == 2 { i.min(2).max(1) - 1 + (i >= 2) as usize } else { i })), None)),
+        }
+    }
+    dedup(v)
+}
+
 pub fn random_graph(rng: &mut Rng, nb: usize, nq: usize) -> Vec<Q> {
     let preds = [P0, P1];
     let mut v = vec![];
